@@ -125,6 +125,41 @@ def coalescent_abstract(rng, nleaves=4, ninternal=4, K=4, p_keep=0.5, p_join=0.8
     return dict(L=K, time=times, flags=flags, edges=edges, sites=[], muts=[])
 
 
+def deadend_variant(a, rng, p_cut=0.25, p_absent=0.25):
+    """the same abstract ts with, per unit cell and non-sample node p, either all edges below p removed (p stays attached to its parent as a
+    childless dead end) or p removed from the cell altogether; nodes that disappear and come back childless exercise incremental bookkeeping"""
+    K = a["L"]
+    N = len(a["time"])
+    cell = [parent_at(a, x) for x in range(K)]
+    internals = [u for u in range(N) if a["flags"][u] != 1]
+    for x in range(K):
+        for p in internals:
+            r = rng.random()
+            if r < p_cut + p_absent:
+                for c in range(N):
+                    if cell[x][c] == p:
+                        cell[x][c] = -1
+                if r >= p_cut:
+                    cell[x][p] = -1
+    edges = []
+    for c in range(N):
+        x = 0
+        while x < K:
+            p = cell[x][c]
+            if p == -1:
+                x += 1
+                continue
+            y = x
+            while y < K and cell[y][c] == p:
+                y += 1
+            edges.append(dict(left=x, right=y, parent=p, child=c))
+            x = y
+    edges.sort(key=lambda e: (a["time"][e["parent"]], e["parent"], e["child"], e["left"]))
+    b = dict(a)
+    b["edges"] = edges
+    return b
+
+
 def random_abstract(rng, N=6, K=4, max_edges=10, nsites=3, nmuts=4, p_internal_sample=0.15,
                     max_time=3, nalleles=4, p_nonsample_leaf=0.2):
     """random valid small abstract ts: integer coordinates on 0..K, node times = small ints
